@@ -1,5 +1,5 @@
-\* both variants of every call (conf.rep): the demanded design must satisfy Certified / NoSilent, the as-written
-\* variant is emitted behaviour by behaviour for the S->C replay.  Exhaustive within MaxDraw oracle draws.
+\* both variants of every call (conf.rep): the demanded design must satisfy Certified / NoSilent; every complete
+\* behaviour of both variants is emitted for the S->C replay.  Exhaustive within MaxDraw oracle draws.
 SPECIFICATION Spec
 CONSTANTS
   Methods = {"direct", "newton", "reuse", "linesearch", "arnoldi"}
